@@ -151,6 +151,15 @@ func TestCheck(t *testing.T) {
 			} else {
 				p = st[len(st)-1].Pos
 			}
+		case i%5 == 3:
+			// FEN-loaded RAW e.p. target: a pseudo-legal capturer may exist although no capture is legal
+			q, ok := gen.RawEP(rng)
+			if !ok {
+				q = gen.AnyPos(rng)
+			} else if n := q.Normalised(); n.EP < 0 {
+				lc.C["positions_with_raw_non_capturable_ep_target"]++
+			}
+			p = q
 		case i%5 == 2:
 			q, ok := gen.Castle(rng)
 			if !ok {
@@ -193,7 +202,7 @@ func TestCheck(t *testing.T) {
 		r.Merge(lcs[wk])
 	})
 	r.Finish("encodings_checked", "accepted_generated", "positions_with_pawn_on_7th", "positions_with_pawn_on_2nd", "positions_with_en_passant",
-		"positions_with_castling", "uci_strings_checked", "uci_strings_played", "uci_out_of_alphabet_strings")
+		"positions_with_castling", "positions_with_raw_non_capturable_ep_target", "uci_strings_checked", "uci_strings_played", "uci_out_of_alphabet_strings")
 }
 
 // uciPosition sends every in-alphabet move string (and some out-of-alphabet ones) for one position
